@@ -457,10 +457,20 @@ def _reap(running, bad, shard):
 # --------------------------------------------------------------------------- verdicts
 
 def load_known_findings():
+    """known_findings.json (committed, read-only at run time); while a property is being developed
+    its entries may live in findings/<id>.json and are merged into known_findings.json before commit."""
+    out = []
     path = os.path.join(ROOT, "known_findings.json")
-    if not os.path.exists(path):
-        return []
-    return json.load(open(path))["findings"]
+    if os.path.exists(path):
+        out += json.load(open(path))["findings"]
+    d = os.path.join(ROOT, "findings")
+    if os.path.isdir(d):
+        for f in sorted(os.listdir(d)):
+            if f.endswith(".json"):
+                for e in json.load(open(os.path.join(d, f)))["findings"]:
+                    if not any(o["property"] == e["property"] and o["key"] == e["key"] for o in out):
+                        out.append(e)
+    return out
 
 
 class Ctx:
@@ -481,6 +491,12 @@ class Ctx:
         self.known = [k for k in load_known_findings() if k["property"] == prop_id]
         self.replay_mode = False
         self.coq = None
+        self.tier_search = tier      # becomes "thorough" when a proof obligation is broken
+        self.extra["translator"] = {}
+
+    def translator(self, genfile, status):
+        """record the outcome of regenerating a Gen file: regenerated | unchanged | fallback:<why>"""
+        self.extra["translator"][genfile] = status
 
     # -- builds
     def scratch(self, asan=False):
